@@ -41,11 +41,16 @@ ASSUMPTIONS = ["testers: Pauli / 4 mutually unbiased bases (qutrit) projective P
                "with on_para_eq_constraint=True the equality constraint holds by construction of the parametrisation; with one algorithm "
                "constraint switched off only the remaining constraint is asserted (and only for flag=False, where the variable space is the object space)",
                "the reference nearest point is accepted only with its KKT certificate (c05.ref_projection)"]
-BOUNDS = {"quick": "Q1: state N<=3, povm m=2 N<=3, m=3 N<=2 (N=2 projected linear only), gate N=1 all 4096 tables (projected linear) + structured, "
-                   "mprocess m=2 structured; Q3: state N<=2, povm m=2 N=1, m=3 / gate / mprocess m=2 structured; loss minimisation: full "
-                   "configuration product on N=1 / exact / improper data of Q1 state+povm, reduced products elsewhere; re-use BFS depth 3 over 18 operations",
-          "thorough": "adds Q2 (two qubits, fast losses), Q1 state N<=5, povm m=2 N<=4, mprocess m=3, Q3 wider structured ranges, "
-                      "full configuration product on all Q1 types, re-use BFS depth 4"}
+BOUNDS = {"quick": "projected linear (both flags, both orders, eps_proj_physical in {default 1e-14, 1e-8} on the smaller sets): Q1 state N<=3 (99 tables), "
+                   "povm m=2 N<=3 (353), m=3 N<=2 (1377), gate N=1 all 4096 tables + structured, mprocess m=2 structured (128); Q3 state N<=2 (1377), "
+                   "povm m=2 N=1 (512), povm m=3 / gate / mprocess m=2 structured (81 / 243 / 32); every alphabet object; 8 improper vectors. "
+                   "loss minimisation: full configuration product (3 algorithms x 4 losses x 6 option sets x 2 orders + one-constraint sets) on Q1 state "
+                   "N=1 / exact / improper; reduced product on Q1 povm m=2 and gate; default options on Q1 state N<=3, povm m=2 N=2, povm m=3, mprocess m=2, "
+                   "Q3 state N=1, povm m=2, gate; eps_proj_physical=1e-8 sweep on Q1 state / povm / gate; re-use BFS depth 3 over 18 operations "
+                   "(3 tomographies x 2 data sets x {backtracking+squared error, FISTA+relative entropy} + projected linear x 2 orders)",
+          "thorough": "adds Q2 (two qubits, fast losses only), Q1 state N<=5, povm m=2 N<=4, mprocess m=3, wider structured ranges on Q3, "
+                      "full configuration product on Q1 state N<=3 / povm m=2 / gate, reduced product on Q1 povm m=3 / mprocess and Q3 state, "
+                      "re-use BFS depth 4, Clarabel solve of the nearest-point problem on a subset (family sdp)"}
 EXHAUSTIVE = {"quick": True, "thorough": True}
 CASE_TIMEOUT = 1500
 CPHYS = 20.0
@@ -255,7 +260,17 @@ def families(tier, seed):
                            "order": "eq_ineq", "chunks": [{"t": "exact", "names": ["z0", "mixed_generic"]}, {"t": "tab", "N": 1, "lo": 0, "hi": 2}]})
     nops = len(reuse_menu())
     reuse = [{"first": i, "depth": 3 if tier == "quick" else 4} for i in range(nops)]
-    return [("plin", plin), ("lossmin", lm), ("reuse", reuse)]
+    fams = [("plin", plin), ("lossmin", lm), ("reuse", reuse)]
+    if tier == "thorough":
+        sdp = []
+        for kind, sysname, m, spec in (("state", "Q1", None, ("tab", 2)), ("povm", "Q1", 2, ("tab", 1)), ("povm", "Q1", 3, ("st", 3, 3)),
+                                       ("gate", "Q1", None, ("st", 2, 2)), ("mprocess", "Q1", 2, ("st", 2, 2)), ("state", "Q3", None, ("tab", 1)),
+                                       ("povm", "Q3", 2, ("st", 2, 2)), ("gate", "Q3", None, ("st", 2, 1))):
+            for flag in (True, False):
+                for ch in chunks_for(kind, sysname, m, spec, 4) + [{"t": "far"}]:
+                    sdp.append({"kind": kind, "sys": sysname, "m": m, "flag": flag, "epsp": None, "chunks": [ch]})
+        fams.append(("sdp", sdp))
+    return fams
 
 
 def guards(summary):
@@ -272,6 +287,8 @@ def guards(summary):
         need.append("lm_runs_" + l)
     for k in ("state", "povm", "gate", "mprocess"):
         need += ["plin_runs_" + k, "lm_runs_" + k]
+    if "sdp" in summary.get("families", {}):
+        need.append("sdp_compared")
     for k in need:
         if info.get(k, 0) < 1:
             g.append("never seen: " + k)
@@ -279,7 +296,7 @@ def guards(summary):
 
 
 def execute(family, p, seed):
-    return {"plin": ex_plin, "lossmin": ex_lossmin, "reuse": ex_reuse}[family](p, seed)
+    return {"plin": ex_plin, "lossmin": ex_lossmin, "reuse": ex_reuse, "sdp": ex_sdp}[family](p, seed)
 
 
 # ---------------------------------------------------------------- reference side
@@ -418,6 +435,65 @@ def ex_plin(p, seed):
     return out
 
 
+def clarabel_nearest(F, x0):
+    """independent semidefinite-programming solve of  min |x - x0|^2  s.t.  C x = b, every block of H(x) PSD"""
+    import cvxpy as cp
+    x = cp.Variable(F.n)
+    cons = [F.C @ x == F.b]
+    M = F.Bm if F.kind in ("state", "povm") else F.T
+    nb = F.nblocks()
+    per = F.n // nb
+    bd = F.block_dim()
+    for k in range(nb):
+        Hre = cp.reshape(x[k * per:(k + 1) * per] @ M.real, (bd, bd), order="C")
+        Him = cp.reshape(x[k * per:(k + 1) * per] @ M.imag, (bd, bd), order="C")
+        cons.append(cp.bmat([[Hre, -Him], [Him, Hre]]) >> 0)
+    prob = cp.Problem(cp.Minimize(cp.sum_squares(x - x0)), cons)
+    prob.solve(solver=cp.CLARABEL, tol_gap_abs=1e-12, tol_gap_rel=1e-12, tol_feas=1e-12)
+    if prob.status not in ("optimal", "optimal_inaccurate") or x.value is None:
+        raise HarnessError("Clarabel failed: %s" % prob.status)
+    return np.asarray(x.value, float)
+
+
+def ex_sdp(p, seed):
+    """thorough: the projected linear estimate against an independent SDP solve of the nearest-point problem"""
+    from quara.protocol.qtomography.standard.projected_linear_estimator import ProjectedLinearEstimator
+    out = Out()
+    kind, sysname, m, flag = p["kind"], p["sys"], p["m"], p["flag"]
+    T = S.tomo(kind, sysname, m, flag, p["epsp"])
+    F = T.F
+    cfg = "%s:%s:m=%s" % (kind, sysname, m)
+    n = 0
+    for chunk in p["chunks"]:
+        for name, dcls, ps, N, xtrue in S.expand(T, chunk, seed):
+            n += 1
+            x0 = ref_linear(T, ps)
+            scale = max(1.0, float(np.abs(x0).max()))
+            xs = clarabel_nearest(F, x0)
+            xr = ref_nearest(T, cfg, name, x0, seed)
+            if np.linalg.norm(xs - xr) > 2e-4 * scale:
+                raise HarnessError("certified nearest point and Clarabel disagree by %.3g for %s %s" % (np.linalg.norm(xs - xr), cfg, name))
+            for order in ORDERS:
+                est = ProjectedLinearEstimator(mode_proj_order=order)
+                ok, res, txt = S.quiet(est.calc_estimate, T.qt, S.emp_of(ps, N))
+                out.ops += 1
+                out.traces += 1
+                if not ok:
+                    continue          # reported by the plin family
+                if dcls == "improper" and "exceeds the limit" in txt:
+                    continue
+                x = result_vectors(out, T, res, "sdp:ProjectedLinearEstimator.calc_estimate:%s:flag=%s:%s" % (cfg, flag, order), name)
+                if x is None:
+                    continue
+                out.count("sdp_compared")
+                if np.linalg.norm(x - xs) > 2e-4 * scale:
+                    out.fail("sdp:ProjectedLinearEstimator.calc_estimate:%s:flag=%s:%s:differs-from-sdp-solve:data=%s" % (cfg, flag, order, dcls),
+                             "%s data %s: distance to the Clarabel nearest point %.3g" % (cfg, name, np.linalg.norm(x - xs)))
+    inner(out, max(0, n - 1))
+    out.outcome = "ok" if not out.fails else "fail"
+    return out
+
+
 # ---------------------------------------------------------------- loss minimisation
 
 
@@ -503,6 +579,8 @@ def judge_lm(out, T, res, info, algo, site, where, dcls, xtrue, pre_ok, txt, pre
                         out.fail(site + ":step-not-a-convex-combination", "%s: alpha values %r" % (where, [a for a in al if not (0.0 < a <= 1.0)][:3]))
                     if any(a < 1.0 for a in al):
                         out.count(prefix + "_alpha_below_one")
+                    if al and al[-1] < 1e-6:
+                        out.count(prefix + "_line_search_collapsed_runs")
     if xtrue is not None and pre_ok and algo == "pgdb" and both and not capped and not info["capped"]:
         e2 = float(np.linalg.norm(x - xtrue))
         # stopping accuracy: the iterates are feasible only to delta = sqrt(eps_proj_physical).  At the true object the squared
@@ -570,6 +648,9 @@ def ex_lossmin(p, seed):
                     out.fail("LossMinimizationEstimator.calc_estimate:var_start-rejected:%s-loss-without-num_var" % loss.split("_")[1],
                              "%s %s %s: a start point of the right length is rejected (%s); loss.num_var=%r" % (
                                  where, algo, loss, A.fmt_exc(res), loss_obj.num_var))
+                elif not (info["eq"] and info["ineq"]):
+                    # one algorithm constraint switched off: outside the property (unbounded iterates are possible); not asserted
+                    out.count("lm_one_constraint_raises_not_asserted")
                 else:
                     out.fail(site + ":raises:data=" + dcls, "%s: %s" % (where, A.fmt_exc(res)))
                 continue
